@@ -8,6 +8,7 @@ REPO=${VARPRO_REPO:-/repo}
 python3 tools/extract_dispatch.py $REPO lean/VarproModel/Generated/Dispatch.lean >/dev/null || true
 python3 tools/extract_pbuilder.py $REPO lean/VarproModel/Generated/PBuilderChecks.lean >/dev/null || true
 python3 tools/extract_mbuilder.py $REPO lean/VarproModel/Generated/MBuilderOrder.lean >/dev/null || true
+python3 tools/extract_setparams.py $REPO lean/VarproModel/Generated/SetParamsPipeline.lean >/dev/null || true
 (cd lean && lake build VarproModel driver)
 sed -i "s#varpro = { path = \"[^\"]*\" }#varpro = { path = \"$REPO\" }#" harness/Cargo.toml
 cp $REPO/Cargo.lock harness/Cargo.lock 2>/dev/null || cp harness/Cargo.lock.base harness/Cargo.lock
